@@ -393,7 +393,8 @@ func (e *LocalityEndpoints) refreshWeight() {
 	} else {
 		weight = &wrapperspb.UInt32Value{}
 		for _, lbEp := range e.llbEndpoints.LbEndpoints {
-			weight.Value += lbEp.GetLoadBalancingWeight().Value
+			// saturate like generate() does (addUint32): a wrapped sum would give the locality a tiny weight
+			weight.Value, _ = addUint32(weight.Value, lbEp.GetLoadBalancingWeight().Value)
 		}
 	}
 	e.llbEndpoints.LoadBalancingWeight = weight
